@@ -456,6 +456,9 @@ func rwLock(fr *frame, a []value) value {
 		panic(blockedPanic{"sync.RWMutex.Lock while read-held (self-deadlock)"})
 	}
 	in.setCell(w, in.tb.BV(32, 1))
+	if in.path != nil {
+		in.path.lockEvents++
+	}
 	return nil
 }
 
